@@ -40,6 +40,27 @@ def generate(rng, tier):
             tree["reel/frame_%06d.dpx" % i] = {"t": "f", "c": {"gen": [i, 9]}}
         env["tree"] = tree
         return {"world": env, "ops": [scen.cmd("create", "@R", "-h", rng.choice(["md5", "xxh64"]))]}
+    if rng.random() < 0.04:
+        # library use: one long-lived process seals two unrelated roots; the first history carries a user pattern, the
+        # second has none -- whatever one command learnt must not leak into the next
+        from .. import gen
+
+        env = gen.gen_env(rng)
+        env["process_model"] = "session"
+        tree = gen.gen_tree(rng, max_entries=6, max_depth=2, hostile=0.1, min_files=2)
+        tree["sub"] = {"t": "d"}
+        tree["sub/render.tmp"] = {"t": "f", "c": gen.unique_content(rng)}
+        tree["sub/keep.mov"] = {"t": "f", "c": gen.unique_content(rng)}
+        env["tree"] = tree
+        fm = gen.fmt_args(gen.pick_formats(rng, 1, 2))
+        some = rng.choice([f for f in gen.tree_files(tree) if not f.endswith(".tmp")])
+        ops = [{"op": "write", "path": "@M/second root/media/clip.tmp", "c": gen.unique_content(rng)},
+               {"op": "write", "path": "@M/second root/media/clip.mov", "c": gen.unique_content(rng)},
+               scen.cmd("create", "@R", *fm, "-i", "*.tmp"), {"op": "advance", "us": 1_000_000},
+               scen.cmd("create", "@R", *fm, "-sf", "@R/" + some), {"op": "advance", "us": 1_000_000},
+               scen.cmd("create", "@M/second root", *fm, "-sf", "@M/second root/media"), {"op": "advance", "us": 1_000_000},
+               scen.cmd("create", "@M/second root", *fm)]
+        return {"world": env, "ops": ops}
     return explore.generate(rng, tier, WEIGHTS, hostile=0.35)
 
 
